@@ -52,7 +52,7 @@ CFG = {
              "fractional and '-0' keys, set(array-like|typed array, offset) incl. overlapping same-buffer sources and views at "
              "non-zero byteOffset -- 2 of 5 cases start with a set(typedArray) scenario that walks ALL 121 ordered (source kind, "
              "target kind) pairs systematically (every pair >= 9 times per quick run, same and distinct buffers, with and without "
-             "byteOffset) with source elements from the boundary classes of the SOURCE kind; corpus/C17/sweep_settyped_* runs the "
+             "byteOffset, usually followed by new T(source) of the target kind) with source elements from the boundary classes of the SOURCE kind; corpus/C17/sweep_settyped_* runs the "
              "same 121 pairs first on every run; views at "
              "non-zero byteOffset, copyWithin, fill, slice, subarray (clamping), reverse, sort, DataView get*/set* of every kind "
              "with littleEndian true/false/omitted, ArrayBuffer.prototype.slice, Go-side writes through the owner's []byte and "
@@ -83,7 +83,7 @@ CFG = {
     "manifest": {
         "text": ("proof: a byte-list model of ArrayBuffers (with a detached flag; a detached buffer keeps its bytes, they are the Go "
                  "owner's memory), typed-array views of the 11 element kinds and DataViews, in two readings (S = ECMA-262, I = goja's "
-                 "arithmetic after the round-1 repairs); every one of 21 operations (constructors, element get/set, set(array|typed "
+                 "arithmetic after the round-1 repairs); every one of 22 operations (constructors incl. new T(typedArray), element get/set, set(array|typed "
                  "array), copyWithin, fill, slice, subarray, reverse, sort, includes/indexOf/lastIndexOf, DataView get/set, "
                  "ArrayBuffer.slice, Go write, Go detach, length getters) returns the byte ranges it touched with the liveness of the buffer. Proved for all inputs, no axioms: "
                  "touched_in_view (both readings: under the view invariant every touched range is on a live buffer and inside the view / "
@@ -99,7 +99,7 @@ CFG = {
         "note": ("trusted: Coq kernel + vm_compute; the hand transcription in coq/C17/Model.v; SpecFloat binary_normalize as the binary32 "
                  "rounding (result format self-checked); the Go harness (canaries checked in Go, bytes compared via 32/61-bit hashes); "
                  "the stored NaN bit pattern pinned to goja's; the implementation is covered by correspondence on generated histories, "
-                 "not by proof; sort with a comparator, species constructors and %TypedArray%.from/of/map are not modelled"),
+                 "not by proof; sort with a comparator, species constructors, %TypedArray%.from/of/map and the callback methods are not modelled"),
         "technique": "Rocq proof over an executable byte-level model (range safety by invariant, I = S refinement with explicit guard, codec round trip) + differential correspondence against /repo via vm_compute",
     },
 }
